@@ -325,3 +325,34 @@ B('pB_x_mm_one_expr_bad', ['C06'], 'R06.d', (R, _MM, "        return not method 
 B('pB_x_mm_one_expr_bad2', ['C06'], 'R06.d', (R, _MM, "        return not (method and self.methods) or method in self.methods\n"))
 T('pB_x_hs_nested', ['C06'], (R, _HS, "        if not _dispatch_state.exceptions:\n            if _dispatch_state.allowed_methods:\n                return err_handler.method_not_allowed_type(allowed_methods=_dispatch_state.allowed_methods)\n            return err_handler.not_found_type(dispatch_state=_dispatch_state, request=request, application=_application)\n        return _dispatch_state.exceptions[-1]\n"))
 T('pB_x_rm_cond_expr', ['C06'], (R, "        self.methods = methods and set([m.upper() for m in methods])\n", "        self.methods = set(m.upper() for m in methods) if methods else methods\n"))
+
+# ---------------------------------------------------------------------------------------------- second pass: recording order (R06.c)
+# exceptions[-1] is the most recent error only if add_exception is an unconditional append and nobody else writes the list
+_AE = "    def add_exception(self, exception):\n        self.exceptions.append(exception)\n"
+_AE_HEAD = "    def add_exception(self, exception):\n"
+T('pB2_twin_record_extend_display', ['C06'], (A, _AE, _AE_HEAD + "        self.exceptions.extend([exception])\n"))
+T('pB2_twin_record_augmented', ['C06'], (A, _AE, _AE_HEAD + "        self.exceptions += [exception]\n"))
+T('pB2_twin_record_through_alias', ['C06'], (A, _AE, _AE_HEAD + "        recorded = self.exceptions\n        recorded.append(exception)\n"))
+T('pB2_twin_record_insert_at_len', ['C06'], (A, _AE, _AE_HEAD + "        self.exceptions.insert(len(self.exceptions), exception)\n"))
+T('pB2_twin_record_both_branches', ['C06'],
+  (A, _AE, _AE_HEAD + "        if getattr(exception, 'is_breaking', True):\n            self.exceptions.append(exception)\n"
+                      "        else:\n            self.exceptions.append(exception)\n"))
+B('pB2_record_skips_known_instances', ['C06'], 'R06.c',
+  (A, _AE, _AE_HEAD + "        if exception not in self.exceptions:\n            self.exceptions.append(exception)\n"))
+B('pB2_record_guard_clause_same_code', ['C06'], 'R06.c',
+  (A, _AE, _AE_HEAD + "        if any(e.code == exception.code for e in self.exceptions):\n            return\n        self.exceptions.append(exception)\n"))
+B('pB2_record_at_front', ['C06'], 'R06.c', (A, _AE, _AE_HEAD + "        self.exceptions.insert(0, exception)\n"))
+B('pB2_record_keeps_only_first', ['C06'], 'R06.c',
+  (A, _AE, _AE_HEAD + "        self.exceptions.append(exception)\n        del self.exceptions[1:]\n"))
+B('pB2_record_then_sorted_by_code', ['C06'], 'R06.c',
+  (A, _AE, _AE_HEAD + "        self.exceptions.append(exception)\n        self.exceptions.sort(key=lambda e: e.code or 0)\n"))
+B('pB2_record_alias_reordered', ['C06'], 'R06.c',
+  (A, _AE, _AE_HEAD + "        recorded = self.exceptions\n        recorded.append(exception)\n        recorded.reverse()\n"))
+B('pB2_record_rebound_argument', ['C06'], 'R06.c',
+  (A, _AE, _AE_HEAD + "        exception = self.exceptions[0] if self.exceptions else exception\n        self.exceptions.append(exception)\n"))
+B('pB2_sentinel_consumes_recorded_errors', ['C06'], 'R06.c',
+  (R, "        if _dispatch_state.exceptions:\n            return _dispatch_state.exceptions[-1]\n",
+      "        if _dispatch_state.exceptions:\n            _dispatch_state.exceptions.sort(key=lambda e: e.code or 0)\n            return _dispatch_state.exceptions[-1]\n"))
+B('pB2_dispatch_rewrites_recorded_errors', ['C06'], 'R06.c',
+  (A, "            else:\n                dispatch_state.add_exception(ret)\n",
+      "            else:\n                dispatch_state.add_exception(ret)\n                dispatch_state.exceptions.reverse()\n"))
